@@ -2,6 +2,8 @@ package main
 
 import (
 	"fmt"
+	"go/token"
+	"go/types"
 	"sort"
 	"strings"
 
@@ -187,4 +189,95 @@ func c19DecodeIntoZeroValue(c *Ctx) {
 	if n < 1 {
 		c.Unresolved("C19.R10", "json.Unmarshal calls into local pkg/config/v2 values in the configuration loaders")
 	}
+}
+
+// c19MarshalersReachable (R11): a custom MarshalJSON is found by encoding/json wherever its type is stored by value.
+// encoding/json calls a pointer-receiver MarshalJSON only on addressable values; for a value that is not addressable (an
+// element obtained by ranging over a map or slice copy, a field of a struct passed by value, a map value) it silently falls
+// back to the plain struct encoding - which for the types of pkg/config/v2 means the shadow fields are written and the
+// runtime fields (durations, weights, TLS sets) are lost. Clause (type graph): a type of pkg/config/v2 whose MarshalJSON has a
+// pointer receiver does not occur *by value* as a struct field, slice/array element or map value of any type of
+// pkg/config/v2 or pkg/configmanager. (A type only ever held by pointer, like GRPC, is fine.)
+func c19MarshalersReachable(c *Ctx) {
+	tp := c.TypesPkg("pkg/config/v2")
+	if tp == nil {
+		c.Unresolved("C19.R11", "package pkg/config/v2")
+		return
+	}
+	ptrOnly := map[*types.Named]bool{}
+	nmarsh := 0
+	for _, name := range tp.Scope().Names() {
+		tn, ok := tp.Scope().Lookup(name).(*types.TypeName)
+		if !ok {
+			continue
+		}
+		named, ok := tn.Type().(*types.Named)
+		if !ok {
+			continue
+		}
+		hasVal, hasPtr := false, false
+		ms := types.NewMethodSet(named)
+		for i := 0; i < ms.Len(); i++ {
+			if ms.At(i).Obj().Name() == "MarshalJSON" {
+				hasVal = true
+			}
+		}
+		mp := types.NewMethodSet(types.NewPointer(named))
+		for i := 0; i < mp.Len(); i++ {
+			if mp.At(i).Obj().Name() == "MarshalJSON" {
+				hasPtr = true
+			}
+		}
+		if hasVal || hasPtr {
+			nmarsh++
+		}
+		if hasPtr && !hasVal {
+			ptrOnly[named] = true
+		}
+	}
+	if nmarsh < 10 {
+		c.Unresolved("C19.R11", fmt.Sprintf("types of pkg/config/v2 with a MarshalJSON method (found %d)", nmarsh))
+		return
+	}
+	var bad []string
+	var byValue func(t types.Type, where string, seen map[types.Type]bool)
+	byValue = func(t types.Type, where string, seen map[types.Type]bool) {
+		if seen[t] {
+			return
+		}
+		seen[t] = true
+		switch x := t.(type) {
+		case *types.Named:
+			if ptrOnly[x] {
+				bad = append(bad, x.Obj().Name()+" (held by value in "+where+")")
+			}
+		case *types.Slice:
+			byValue(x.Elem(), where, seen)
+		case *types.Array:
+			byValue(x.Elem(), where, seen)
+		case *types.Map:
+			byValue(x.Elem(), where, seen)
+		}
+	}
+	for _, pkg := range []string{"pkg/config/v2", "pkg/configmanager"} {
+		p := c.TypesPkg(pkg)
+		if p == nil {
+			continue
+		}
+		for _, name := range p.Scope().Names() {
+			tn, ok := p.Scope().Lookup(name).(*types.TypeName)
+			if !ok {
+				continue
+			}
+			st, ok := tn.Type().Underlying().(*types.Struct)
+			if !ok {
+				continue
+			}
+			for i := 0; i < st.NumFields(); i++ {
+				byValue(st.Field(i).Type(), tn.Name()+"."+st.Field(i).Name(), map[types.Type]bool{})
+			}
+		}
+	}
+	sort.Strings(bad)
+	c.Check("C19.R11", "pkg/config/v2:marshalers-reachable-by-value", token.NoPos, len(bad) == 0, fmt.Sprintf("%d marshalers; those with a pointer receiver are only ever held by pointer", nmarsh), "a configuration type whose MarshalJSON has a pointer receiver is stored by value: "+strings.Join(bad, "; ")+" - encoding/json skips the method for values that are not addressable (an element of a ranged copy, a map value) and writes the plain struct, so runtime fields of that type are missing from the dump")
 }
